@@ -1702,6 +1702,12 @@ def charclass(ctx):
     chks = ["", rs(dig, 58), rs(let, 58), "2" * 58, "q" * 58, rs(dig, 57) + r.choice(let), r.choice(let) + rs(dig, 57), rs(B32, 58)]
     pays = ["", "2", "q", rs(dig, 5), rs(dig, 40), rs(let, 5), rs(let, 40), rs(dig, 7) + r.choice(let), r.choice(let) + rs(dig, 7),
             rs(dig, 3) + r.choice(let) + rs(dig, 3), rs(let, 3) + r.choice(dig) + rs(let, 3), rs(B32, 30)]
+    # part numbers at the far end of the quantifier (a 70000-byte payload in chunks of 1 has 112014 parts) and beyond:
+    # every x-of-y that int() reads is a header the parser has to accept
+    for (x, y) in [(99999, 99999), (99999, 100000), (100000, 100000), (100000, 112014), (112014, 112014), (1, 112014),
+                   (999999, 1000000), (12345678, 87654321), (1, 2 ** 31), (2 ** 32, 2 ** 32 + 1), (10 ** 18, 10 ** 18)]:
+        ctx.label("far-end/part-numbers")
+        yield ("prop", "helper_fields", [rs(B32, 58).encode(), rs(B32, 12).encode(), x, y, r.randrange(5)])
     for c in chks:
         for pl in pays:
             x, y = r.choice([(1, 1), (1, 2), (2, 2), (3, 7), (10, 10)])
